@@ -839,6 +839,16 @@ func (env *SpecEnv) evalCall(x *SExpr) Value {
 			arr = env.e.curIn(env.view, "ghost:bytes$str", SStr, false)
 		}
 		return strV(App(SStr, "str.substr", Select(arr, sliceBase(v)), sliceOff(v), sliceLen(v)))
+	case "joined":
+		// joined(s, sep): strings.Join of the []string s, as an uninterpreted
+		// function of the slice's CONTENTS (backing array content, offset, length)
+		v := ev(0)
+		arr := env.e.cur(env.st, "elem:string", SStr, true)
+		if env.view != nil {
+			arr = env.e.curIn(env.view, "elem:string", SStr, true)
+		}
+		env.e.declareFun("sf.strJoin", []Sort{ArrS(SInt, SStr), SInt, SInt, SStr}, SStr)
+		return strV(App(SStr, "sf.strJoin", Select(arr, sliceBase(v)), sliceOff(v), sliceLen(v), t1(1)))
 	case "bytestr":
 		// the string a []byte was converted from (valid for the whole, unmodified slice)
 		v := ev(0)
@@ -1025,6 +1035,14 @@ func (env *SpecEnv) evalCall(x *SExpr) Value {
 			specFail("payload on non-interface")
 		}
 		return Value{T: tRef, L: []Term{v.L[1]}}
+	case "final":
+		// final(p): the value of a reassigned parameter at return
+		if a := args[0]; a.Op == "id" {
+			if v, ok := env.vars["final$"+a.Name]; ok {
+				return v
+			}
+		}
+		return ev(0)
 	case "fresh":
 		v := ev(0)
 		return boolV(Gt(refLeaf(v), env.oldTop))
